@@ -47,12 +47,20 @@ func (c *basicCumulativeCollector) AddEvent(in *Performance) error {
 		return errors.New("cannot add nil performance event")
 	}
 	if c.current == nil {
-		c.current = in
+		c.current = copyPerformance(in)
 		return c.Collector.Add(c.current)
 	}
 
 	c.current.Add(in)
 	return c.Collector.Add(c.current)
+}
+
+// copyPerformance returns a private copy of the first event: the
+// running totals must not share memory with a value the caller owns
+// and may reuse for the next event.
+func copyPerformance(in *Performance) *Performance {
+	out := *in
+	return &out
 }
 
 type passthroughCollector struct {
@@ -101,7 +109,7 @@ func (c *samplingCollector) AddEvent(in *Performance) error {
 	}
 
 	if c.current == nil {
-		c.current = in
+		c.current = copyPerformance(in)
 	} else {
 		c.current.Add(in)
 	}
@@ -141,7 +149,7 @@ func (c *randSamplingCollector) AddEvent(in *Performance) error {
 	}
 
 	if c.current == nil {
-		c.current = in
+		c.current = copyPerformance(in)
 	} else {
 		c.current.Add(in)
 	}
@@ -188,7 +196,7 @@ func (c *intervalSamplingCollector) AddEvent(in *Performance) error {
 	}
 
 	if c.current == nil {
-		c.current = in
+		c.current = copyPerformance(in)
 		c.lastCollected = time.Now()
 		return c.Collector.Add(c.current)
 	}
